@@ -31,6 +31,7 @@ from pydiverse.transform._internal.tree.col_expr import (
 
 class MsSqlImpl(SqlImpl):
     backend_name = "mssql"
+    has_duration_literals = False
 
     @classmethod
     def inf(cls):
